@@ -288,12 +288,44 @@ def c_garbage(ctx, case):
              f"missing tokens)")
 
 
+class _Dialect(parsemod.Parser):
+    """a user dialect: same tokens, ^ means power (right-associative, above unary minus)"""
+
+    def parse_postfix(self, pstate, min_precedence, left_exp):
+        if pstate.is_next(parsemod._bitwisexor) and parsemod._PREC_POWER > min_precedence:
+            pstate.advance()
+            right = self.parse_expression(pstate, parsemod._PREC_POWER)
+            return p.Power(left_exp, right), True
+        return super().parse_postfix(pstate, min_precedence, left_exp)
+
+
 @check("C07.history")
 def c_history(ctx, case):
     """The parser object carries no state from one string to the next: the trees of valid
     strings are the same before and after any number of rejected strings."""
     valid, bad = case
     before = [repr(parse(s)) for s in valid]
+    # other grammars derived from the same Parser class read the same strings in between
+    # (in-tree: the Maxima dialect, where ^ is a power; a user subclass with its own lex table)
+    try:
+        from pymbolic.interop.maxima import MaximaParser
+        dialects = [MaximaParser(), _Dialect()]
+    except Exception:  # noqa: BLE001
+        dialects = [_Dialect()]
+    # strings the module-level parser has never seen in this process (odd spacing), read by the
+    # dialects FIRST and then judged against Python like any other string
+    fresh = ["a   ^  b", "a  ^ b  **  c |   d", "2   ^    3", "a  ^   b ^  c", "-a   ^ 2"]
+    for d in dialects:
+        for s in valid + fresh:
+            try:
+                d(s)
+                ctx.count("dialect_parses_between")
+            except RecursionError:
+                raise
+            except Exception:  # noqa: BLE001
+                pass
+    for s in fresh:
+        c_string(ctx, (s, 0))
     n = 0
     for g in bad:
         try:
@@ -383,6 +415,10 @@ def workload(ctx):
                         f"b * {u}2 {o} a", f"b {o} {u}3 ** a"]
         for o1, o2 in itertools.product(BIN, BIN):
             strings += [f"2 {o1} b {o2} c", f"a {o1} 2 {o2} c", f"a {o1} b {o2} 2"]
+        # tuples, incl. the EMPTY tuple next to a comma, where Python can use them
+        strings += ["f((), a)", "f(a, ())", "f(())", "f((), ())", "f(((), a))", "f(((),))", "f(((), ()))",
+                    "o[(), 1]", "o[1, ()]", "o[((), a)]", "f(a, k=((), b))", "f(k=())", "f((a,), b)",
+                    "f(((a, b), c))", "f((a, (b, c)))", "f((a, b),)", "o[(a, b), c]", "o[a, (b,)]"]
         strings += LITERALS + POSTFIX
         for s in strings:
             if ctx.mine("pairs"):
@@ -442,7 +478,8 @@ def workload(ctx):
         # history on the ONE module-level parser object: valid strings, then a burst of
         # rejected ones (a batch of negative tests), then the same valid strings again.
         if ctx.shard == 0:
-            valid = ["a + b*c", "a < b <= c", "f(a, k=b)[c].attr", "-a ** 2 // (b % c)",
+            valid = ["a + b*c", "a < b <= c", "f(a, k=b)[c].attr", "-a ** 2 // (b % c)", "a ^ b",
+                     "a ^ b ** c | d", "2 ^ 3",
                      "((((((((a))))))))", "a if b else c if d else e", "(a, (b, (c,)))"]
             ctx.run("C07.history", (valid, GARBAGE * ctx.pick(25, 100)))
         for k, v in tr.handlers("parse").items():
